@@ -30,6 +30,12 @@ impl VisitMut for DerefReplacer {
     }
 }
 
+
+/// is the receiver expression listed in opts.r13_maps (an insertion-ordered map modelled by SMap)?
+fn is_r13_map(ctx: &crate::Ctx, recv: &syn::Expr) -> bool {
+    let rtxt = norm(&recv.to_token_stream().to_string());
+    ctx.opts["r13_maps"].as_array().map(|a| a.iter().any(|v| v.as_str().map(|t| { let ex = match t.rsplit_once(':') { Some((x, m)) if m == "ref" || m == "val" || m == "mut" => x, _ => t }; norm(ex) == rtxt }).unwrap_or(false))).unwrap_or(false)
+}
 /// does the block contain a `continue` that belongs to the loop it is the body of?
 fn has_own_continue(b: &syn::Block) -> bool {
     struct V { found: bool }
@@ -217,6 +223,7 @@ impl<'a> Rules<'a> {
                 let p1 = &tp.elems[1];
                 vec![syn::parse_quote!(let #p0 = &#a_recv[#ii];), syn::parse_quote!(let #p1 = &#b[#ii];)]
             }
+            (None, p) if is_r13_map(self.ctx, &a_recv) => vec![syn::parse_quote!(let #p = #a_recv.get_index(#ii).unwrap();)],
             (None, p) => vec![syn::parse_quote!(let #p = &#a_recv[#ii];)],
             _ => return None,
         };
@@ -920,6 +927,37 @@ impl<'a> VisitMut for Rules<'a> {
                     return;
                 }
             }
+            if self.ctx.on("R42") {
+                // R42: `for i in (A..B).rev() { body }` -> while loop counting down (std definition of Rev over a range)
+                if let (syn::Expr::MethodCall(rv), syn::Pat::Ident(pid)) = (&*fl.expr, &*fl.pat) {
+                    if rv.method == "rev" && rv.args.is_empty() {
+                        let inner = match &*rv.receiver { syn::Expr::Paren(p) => (*p.expr).clone(), other => other.clone() };
+                        if let syn::Expr::Range(r) = &inner {
+                            if let (Some(start), Some(end), syn::RangeLimits::HalfOpen(_)) = (&r.start, &r.end, &r.limits) {
+                                let k = self.ctx.fresh();
+                                let jj = syn::Ident::new(&format!("vx_j{}", k), proc_macro2::Span::call_site());
+                                let lo = syn::Ident::new(&format!("vx_lo{}", k), proc_macro2::Span::call_site());
+                                let id = pid.ident.clone();
+                                let stmts = &fl.body.stmts;
+                                let label = fl.label.clone();
+                                let new: syn::Expr = syn::parse_quote!({
+                                    let #lo: usize = #start;
+                                    let mut #jj: usize = #end;
+                                    #label while #jj > #lo {
+                                        #jj = #jj - 1;
+                                        let #id = #jj;
+                                        #(#stmts)*
+                                    }
+                                });
+                                *e = new;
+                                self.ctx.used("R42");
+                                syn::visit_mut::visit_expr_mut(self, e);
+                                return;
+                            }
+                        }
+                    }
+                }
+            }
             if self.ctx.on("R36") {
                 // R36: `for i in A..B { ... continue ... }` -> while loop whose index is advanced at the top of the body (the verifier's
                 // for-loops do not take `continue`); the bounds are evaluated once, as for a range
@@ -1056,14 +1094,21 @@ impl<'a> VisitMut for Rules<'a> {
                                         let k = self.ctx.fresh();
                                         let nn = syn::Ident::new(&format!("vx_n{}", k), proc_macro2::Span::call_site());
                                         let ii = syn::Ident::new(&format!("vx_i{}", k), proc_macro2::Span::call_site());
-                                        let new: syn::Expr = syn::parse_quote!({
+                                        let new: syn::Expr = if is_r13_map(self.ctx, &recv) { syn::parse_quote!({
+                                            let #nn = #recv.len();
+                                            #label for #ii in 0..#nn {
+                                                let #ipat = #ii;
+                                                let #xpat = #recv.get_index(#ii).unwrap();
+                                                #(#stmts)*
+                                            }
+                                        }) } else { syn::parse_quote!({
                                             let #nn = #recv.len();
                                             #label for #ii in 0..#nn {
                                                 let #ipat = #ii;
                                                 let #xpat = &#recv[#ii];
                                                 #(#stmts)*
                                             }
-                                        });
+                                        }) };
                                         *e = new;
                                         self.ctx.used("R4");
                                         syn::visit_mut::visit_expr_mut(self, e);
